@@ -476,8 +476,26 @@ class WsgiApplication(HttpBase):
         # here before serialization as the user function can also set output
         # protocol. Is there a better way?
         if is_generator:
-            first_obj = next(g)
-            p_ctx.out_object = ( chain((first_obj,), g), )
+            try:
+                first_obj = next(g)
+                p_ctx.out_object = ( chain((first_obj,), g), )
+
+            except StopIteration:
+                p_ctx.out_object = ( iter(()), )
+
+            except Exception as e:
+                # user code up to the first yield runs here, outside
+                # Application.process_request, so its errors are handled here.
+                logger.exception(e)
+                if isinstance(e, Fault):
+                    p_ctx.out_error = e
+                else:
+                    p_ctx.out_error = Fault('Server',
+                                             get_fault_string_from_exception(e))
+
+                p_ctx.fire_event('method_exception_object')
+                return self.handle_error(p_ctx, others, p_ctx.out_error,
+                                                                 start_response)
 
         if p_ctx.transport.resp_code is None:
             p_ctx.transport.resp_code = HTTP_200
